@@ -44,20 +44,20 @@ type Analyzer struct {
 	fnInfos  map[*ssa.Function]*fnInfo
 
 	// state of the entry point being analysed
-	entry     string
-	record    bool // record obligations and failures
-	lenient   bool // package initialisation: unknown operations yield top silently
-	obls      map[string]*Obligation
-	oblOrder  []*Obligation
-	undecided []string
-	undSeen   map[string]bool
+	entry      string
+	record     bool // record obligations and failures
+	lenient    bool // package initialisation: unknown operations yield top silently
+	obls       map[string]*Obligation
+	oblOrder   []*Obligation
+	undecided  []string
+	undSeen    map[string]bool
 	idiomSites map[string]map[string]bool // structural idioms (wide pair, wide shift): distinct sites
-	inlined   map[string]int
+	inlined    map[string]int
 	summarised map[string]int
-	paths     int
-	steps     int
-	wideSeq   int
-	aborted   bool
+	paths      int
+	steps      int
+	wideSeq    int
+	aborted    bool
 }
 
 // NewAnalyzer creates an analyzer for a loaded configuration.
@@ -679,4 +679,3 @@ func (a *Analyzer) GlobalValue(g *ssa.Global) (Value, bool) {
 	v, ok := a.base[a.objID("global:"+g.String())]
 	return v, ok
 }
-
